@@ -3,6 +3,7 @@ package scen
 import (
 	"bytes"
 	"fmt"
+	"github.com/bmeg/grip/gdbi"
 	"strings"
 
 	"github.com/bmeg/grip/kvgraph"
@@ -31,15 +32,19 @@ import (
 // vertex is found through the label index, other graphs are untouched.
 
 type c04W struct {
-	Ops     []gen.HOp `json:"ops"`
-	Mode    string    `json:"mode"` // restart | crash
-	CrashOp int       `json:"crash_op,omitempty"` // crash: index of the call that crashes (-1: every mutating call in turn)
-	CommitOnError bool `json:"kv_commit_on_error,omitempty"`
+	Ops           []gen.HOp `json:"ops"`
+	Mode          string    `json:"mode"`               // restart | crash
+	CrashOp       int       `json:"crash_op,omitempty"` // crash: index of the call that crashes (-1: every mutating call in turn)
+	CommitOnError bool      `json:"kv_commit_on_error,omitempty"`
+	// U replaces the small observation universe (crash-volume: a hub vertex
+	// with hundreds of incident edges; only a few identifiers are looked up
+	// one by one, the listings cover the rest)
+	U *universe `json:"universe,omitempty"`
 }
 
 func init() {
 	Register(&Scenario{
-		Name: "restart", Prop: "C04", Weight: 1,
+		Name: "restart", Prop: "C04", Weight: 20,
 		Gen:    func(r *Rng, tier string, seed uint64) interface{} { return genC04(r, tier, "restart") },
 		New:    func() interface{} { return &c04W{} },
 		Exec:   func(w interface{}, x *Exec) *Outcome { return execC04(w.(*c04W), x) },
@@ -48,12 +53,60 @@ func init() {
 		Stub:   []string{"storage engine (simkv: atomic top-level writes, crash = freeze, reopen)"},
 	})
 	Register(&Scenario{
-		Name: "crash", Prop: "C04", Weight: 2,
+		Name: "crash-volume", Prop: "C04", Weight: 1,
+		Gen:    func(r *Rng, tier string, seed uint64) interface{} { return genC04Volume(r, tier) },
+		New:    func() interface{} { return &c04W{} },
+		Exec:   func(w interface{}, x *Exec) *Outcome { return execC04(w.(*c04W), x) },
+		Shrink: func(w interface{}) []interface{} { return shrinkC04(w.(*c04W)) },
+	})
+	Register(&Scenario{
+		Name: "crash", Prop: "C04", Weight: 40,
 		Gen:    func(r *Rng, tier string, seed uint64) interface{} { return genC04(r, tier, "crash") },
 		New:    func() interface{} { return &c04W{} },
 		Exec:   func(w interface{}, x *Exec) *Outcome { return execC04(w.(*c04W), x) },
 		Shrink: func(w interface{}) []interface{} { return shrinkC04(w.(*c04W)) },
 	})
+}
+
+// genC04Volume: calls that touch hundreds of keys. A mutating call stays one
+// atomic top-level write however many keys it touches; an implementation that
+// splits it (per-batch transactions, chunked commits) exposes states between
+// the pieces, and only a vertex of high degree or a long batch reaches them.
+func genC04Volume(r *Rng, tier string) *c04W {
+	w := &c04W{Mode: "crash", CrashOp: -1}
+	n := []int{180, 350, 420}[r.Intn(3)]
+	if tier == "thorough" {
+		n = []int{120, 180, 350, 420, 700, 1100}[r.Intn(6)]
+	}
+	g := "g1"
+	var vs []*model.Vertex
+	var es []*model.Edge
+	vs = append(vs, &model.Vertex{ID: "hub", Label: "A"})
+	for i := 0; i < n; i++ {
+		id := fmt.Sprintf("s%d", i)
+		vs = append(vs, &model.Vertex{ID: id, Label: gen.VLabels[i%len(gen.VLabels)]})
+		e := &model.Edge{ID: fmt.Sprintf("x%d", i), Label: gen.ELabels[i%len(gen.ELabels)], From: id, To: "hub"}
+		if r.Chance(30) {
+			e.From, e.To = "hub", id
+		}
+		es = append(es, e)
+	}
+	w.Ops = []gen.HOp{{Op: "addGraph", G: g, TickUs: 5}}
+	if r.Chance(50) {
+		w.Ops = append(w.Ops, gen.HOp{Op: "batch", G: g, V: vs, TickUs: 5}, gen.HOp{Op: "batch", G: g, E: es, TickUs: 5})
+	} else {
+		w.Ops = append(w.Ops, gen.HOp{Op: "bulk", G: g, V: vs, E: es, TickUs: 5})
+	}
+	switch r.Intn(4) {
+	case 0, 1:
+		w.Ops = append(w.Ops, gen.HOp{Op: "delV", G: g, ID: "hub", TickUs: 5})
+	case 2:
+		w.Ops = append(w.Ops, gen.HOp{Op: "delE", G: g, ID: "x1", TickUs: 5}, gen.HOp{Op: "delV", G: g, ID: "hub", TickUs: 5})
+	default:
+		w.Ops = append(w.Ops, gen.HOp{Op: "delGraph", G: g, TickUs: 5})
+	}
+	w.U = &universe{Graphs: []string{g, "g2"}, VIDs: []string{"hub", "s0", "s1", fmt.Sprintf("s%d", n-1)}, EIDs: []string{"x0", "x1", fmt.Sprintf("x%d", n-1)}, VLabels: gen.VLabels, ELabels: gen.ELabels}
+	return w
 }
 
 func genC04(r *Rng, tier string, mode string) *c04W {
@@ -178,14 +231,18 @@ func execC04(w *c04W, x *Exec) *Outcome {
 	infra := x.PassiveBubble(func() {
 		disk := simkv.NewDisk()
 		disk.CommitOnError = w.CommitOnError
-		h := newHistRunner(disk, x.WorkDir, hUniverse)
+		u := hUniverse
+		if w.U != nil {
+			u = *w.U
+		}
+		h := newHistRunner(disk, x.WorkDir, u)
 		h.masked = map[string]bool{"vertex-labels": true, "edge-labels": true} // known findings of C03, independent observables
 		for i, op := range w.Ops {
 			if op.Op == "reopen" {
 				o.Count("fault:clean_reopen", 1)
 			}
 			if w.Mode == "crash" && mutating(op) && (w.CrashOp < 0 || w.CrashOp == i) {
-				if v := crashEnumerate(h, i, op, o); v != nil {
+				if v := crashEnumerate(h, i, op, w.Ops[i+1:], o, x); v != nil {
 					viol = v
 					return
 				}
@@ -232,7 +289,7 @@ func historyHasReopenBefore(ops []gen.HOp, i int) bool {
 }
 
 // crashEnumerate injects a crash before every top-level write of op.
-func crashEnumerate(h *histRunner, i int, op gen.HOp, o *Outcome) *Violation {
+func crashEnumerate(h *histRunner, i int, op gen.HOp, rest []gen.HOp, o *Outcome, x *Exec) *Violation {
 	// dry run on a clone: how many top-level writes does the call issue?
 	dry := h.disk.Clone()
 	dh := &histRunner{disk: dry, db: kvgraph.NewKVGraph(dry.Open()), m: h.m.Clone(), u: h.u, workDir: h.workDir}
@@ -277,11 +334,12 @@ func crashEnumerate(h *histRunner, i int, op gen.HOp, o *Outcome) *Violation {
 		if op.Op == "delGraph" && ka == "" {
 			// the graph is gone: re-creating it must give an empty graph, not
 			// what an interrupted delete left behind
-			if err := db2.AddGraph(op.G); err == nil {
+			db3 := kvgraph.NewKVGraph(c.Clone().Open()) // a probe on a copy: the recovered store itself goes on below
+			if err := db3.AddGraph(op.G); err == nil {
 				m2 := after.Clone()
 				m2.Graphs[op.G] = model.NewG()
 				w2 := observeModel(m2, h.u)
-				g2 := observeReal(db2, h.u, h.workDir)
+				g2 := observeReal(db3, h.u, h.workDir)
 				for kk := range h.masked {
 					w2.dropKind(kk)
 					g2.dropKind(kk)
@@ -293,12 +351,22 @@ func crashEnumerate(h *histRunner, i int, op gen.HOp, o *Outcome) *Violation {
 				o.Count("recreate_after_interrupted_delete_checked", 1)
 			}
 		}
-		if kb == "" {
-			o.Count("crash_outcome:call_absent", 1)
-			continue
-		}
-		if ka == "" {
-			o.Count("crash_outcome:call_complete", 1)
+		if kb == "" || ka == "" {
+			matched := before
+			if kb == "" {
+				o.Count("crash_outcome:call_absent", 1)
+			} else {
+				o.Count("crash_outcome:call_complete", 1)
+				matched = after
+			}
+			// the recovered server must go on behaving like one that never
+			// stopped: the rest of the history (a few steps) and a probe that
+			// writes new, labelled elements are judged against the abstract
+			// graph the recovery matched
+			what := fmt.Sprintf("step %d %s, crash before top-level write %d of %d (%s), recovered as if the call had %s", i, opString(op), k, writes, strings.Join(wlog, " ; "), map[bool]string{true: "not happened", false: "completed"}[kb == ""])
+			if v := afterRecovery(c, db2, matched, h, rest, what, o, x); v != nil {
+				return v
+			}
 			continue
 		}
 		what := fmt.Sprintf("step %d %s, crash before top-level write %d of %d (%s)", i, opString(op), k, writes, strings.Join(wlog, " ; "))
@@ -321,6 +389,47 @@ func crashEnumerate(h *histRunner, i int, op gen.HOp, o *Outcome) *Violation {
 		return &Violation{Class: "C04/crash/" + kind, Signature: fmt.Sprintf("C04/crash/%s/after=%s", kind, ex.shape),
 			Detail: fmt.Sprintf("%s: after reopening, observable %s is neither as before the call nor as after it\n  after-state expects: %s\n  got:                 %s\n  raw-key check: %s", what, ka, wv, gv, msg)}
 	}
+	return nil
+}
+
+// afterRecovery continues on a recovered store.
+func afterRecovery(c *simkv.Disk, db gdbi.GraphDB, matched *model.Store, h *histRunner, rest []gen.HOp, what string, o *Outcome, x *Exec) *Violation {
+	u := h.u
+	u.VIDs = append(append([]string{}, u.VIDs...), "pv", "pw")
+	u.EIDs = append(append([]string{}, u.EIDs...), "pe")
+	rh := &histRunner{disk: c, db: db, m: matched.Clone(), u: u, seenTS: map[string]map[string]bool{}, workDir: h.workDir, masked: map[string]bool{}}
+	for k := range h.masked {
+		rh.masked[k] = true
+	}
+	var ops []gen.HOp
+	for _, op := range rest {
+		if len(ops) >= 3 {
+			break
+		}
+		if op.Op == "reopen" {
+			continue
+		}
+		ops = append(ops, op)
+	}
+	for _, g := range matched.GraphNames() {
+		ops = append(ops,
+			gen.HOp{Op: "addV", G: g, TickUs: 7, V: []*model.Vertex{{ID: "pv", Label: gen.VLabels[0]}}},
+			gen.HOp{Op: "batch", G: g, TickUs: 7, V: []*model.Vertex{{ID: "pw", Label: gen.VLabels[1%len(gen.VLabels)]}}, E: []*model.Edge{{ID: "pe", Label: gen.ELabels[0], From: "pv", To: "pw"}}},
+		)
+	}
+	for j, op := range ops {
+		v := safeStep(rh, "C04", j, op)
+		if v == nil {
+			continue
+		}
+		if x.IsKnown("C03", strings.Replace(v.Signature, "C04/", "C03/", 1)) || x.IsKnown("C04", v.Signature) {
+			o.Count("recovery_continuation_ended_at_known", 1)
+			return nil
+		}
+		o.Count("recovery_continuations_failed", 1)
+		return &Violation{Class: "C04/crash/after-recovery", Signature: "C04/crash/after-recovery/" + strings.TrimPrefix(v.Signature, "C04/"), Detail: what + "; then " + v.Detail}
+	}
+	o.Count("recovery_continuations_checked", 1)
 	return nil
 }
 
